@@ -1,6 +1,7 @@
 package type5
 
 import (
+	"bytes"
 	"crypto/sha256"
 	"fmt"
 
@@ -74,6 +75,11 @@ func (s BatchedPrivateTokenRequestState) FinalizeTokens(tokenResponseEnc []byte)
 	err := proof.UnmarshalBinary(group.Ristretto255, proofEnc)
 	if err != nil {
 		return nil, err
+	}
+	// Only the canonical encoding of the proof scalars is accepted
+	canonicalProofEnc, err := proof.MarshalBinary()
+	if err != nil || !bytes.Equal(canonicalProofEnc, proofEnc) {
+		return nil, fmt.Errorf("invalid batch token response proof encoding")
 	}
 
 	evaluation := &oprf.Evaluation{
